@@ -56,6 +56,8 @@ class Canon:
             return t
         if k == "typed":
             return self.norm(t[2])
+        if k == "fact":
+            return self.norm(t[1])
         if k == "istype":
             return ("istype", self.norm(t[1]), t[2])
         if k == "attr":
@@ -302,9 +304,13 @@ class Canon:
             return f"{s(t[1])}.get({t[2]!r}, {s(t[3])})"
         if k == "dictobj":
             h = self.ip.heap.get(t[1], {})
-            items = ", ".join(f"{kk!r}: {s(self.norm(v))}" for kk, v in h.get("items", {}).items())
-            dyn = ", ..." if h.get("dyn") else ""
-            return "{" + items + dyn + "}"
+            items = [f"{kk!r}: {s(self.norm(v))}" for kk, v in h.get("items", {}).items()]
+            for d in h.get("dyn", []):
+                if isinstance(d[0], tuple) and isinstance(d[1], tuple) and d[0][0] != "unknown":
+                    items.append(f"{s(self.norm(d[0]))}: {s(self.norm(d[1]))}")
+                else:
+                    items.append("...")
+            return "{" + ", ".join(items) + "}"
         if k == "listobj":
             h = self.ip.heap.get(t[1], {})
             return "[" + ", ".join(s(self.norm(v)) for v in h.get("elts", [])) + \
